@@ -229,6 +229,7 @@ impl Property for C05 {
             // a caller giving up on one operation must not change how the OTHERS complete (only
             // those are judged here; what happens to the abandoned one is C15's claim)
             1 => sel().prop_map(|sel| Ev::DropOp { sel }),
+            1 => Just(Ev::ReenterRun),
         ]
         .boxed();
         no_inbound(scenario(Just(None).boxed(), ev, 1..tier.pick(60, 200)))
@@ -330,6 +331,7 @@ impl Property for C06 {
             1 => start(vec![(1, OpKind::Pub2), (1, OpKind::Pub1)]).prop_map(|e| vec![e]),
             1 => Just(vec![Ev::PollCtx]),
             1 => sel().prop_map(|sel| vec![Ev::PollOp { sel }]),
+            1 => Just(vec![Ev::ReenterRun]),
         ];
         // also under a small Receive Maximum / Maximum Packet Size: local refusals are part of the
         // statement, and a refusal must never hit an exchange that is already on the wire
@@ -408,6 +410,7 @@ impl Property for C07 {
             3 => one(sel().prop_map(|sel| Ev::MakeStream { sel })),
             4 => one(sel().prop_map(|sel| Ev::PollStream { sel })),
             3 => one(sel().prop_map(|sel| Ev::DropStream { sel })),
+            1 => Just(vec![Ev::ReenterRun]),
         ]
         .boxed();
         let quiescent = scenario_v(rm_small(), ev, 1..tier.pick(40, 120));
@@ -579,6 +582,7 @@ impl Property for C08 {
             ]),
             2 => one(stream_events()),
             1 => one(sel().prop_map(|sel| Ev::DropOp { sel })),
+            1 => Just(vec![Ev::ReenterRun]),
             // several inbound packets arriving in ONE read (or cut arbitrarily)
             3 => (vec((0u8..3, any::<bool>(), target_any(), 0u16..6), 2..6), crate::gen::chunk_plan(), any::<bool>()).prop_map(|(items, plan, sb)| vec![Ev::Burst {
                 items: items.into_iter().map(|(qos, dup, target, payload_len)| Inbound::Publish { qos, dup, retain: false, pid: 0, target, payload_len, props: 0 }).collect(),
@@ -764,6 +768,8 @@ impl Property for C10 {
             7 => ack(deco()),
             // a caller giving up on a publish does not change what is in flight
             1 => sel().prop_map(|sel| Ev::DropOp { sel }),
+            // nor does dropping run() at a quiescent point and calling it again
+            1 => Just(Ev::ReenterRun),
         ]
         .boxed();
         no_inbound(scenario(rm_small(), ev, 1..tier.pick(60, 200)))
@@ -905,6 +911,7 @@ fn mixed_history(tier: Tier) -> BoxedStrategy<Vec<Ev>> {
         3 => Just(Ev::PollCtx),
         3 => sel().prop_map(|sel| Ev::PollOp { sel }),
         5 => Just(Ev::Settle),
+        1 => Just(Ev::ReenterRun),
     ];
     vec(prop_oneof![9 => ev.prop_map(|e| vec![e]), 1 => sub_ready()], 0..tier.pick(24, 60))
         .prop_map(flat)
@@ -1162,6 +1169,7 @@ impl Property for C15 {
             2 => stream_events().prop_map(|e| vec![e, Ev::Settle]),
             2 => sub_ready(),
             2 => sel().prop_map(|sel| vec![Ev::DropStream { sel }, Ev::Settle]),
+            1 => Just(vec![Ev::ReenterRun]),
             1 => Just(vec![Ev::PollCtx]),
         ];
         let s = (prop::sample::select(vec![Some(1u16), Some(2), Some(3), Some(5), None]), vec(ev, 1..tier.pick(40, 120)), prologue_variant())
